@@ -91,6 +91,9 @@ class HeapExec(DynExec):
     def item_len(self, st, it):
         return z3.IntVal(1) if it[0] == 'el' else self.segs(st)[it[1]]['len']
 
+    def list_semantic_key(self, st, lref):
+        return _canon_items(st, st.lists[lref.lid])
+
     def list_len(self, st, lref):
         items = st.lists[lref.lid]
         n, sym = 0, []
@@ -102,6 +105,29 @@ class HeapExec(DynExec):
         if not sym:
             return n
         return SInt(z3.simplify(z3.Sum(*sym) + n if len(sym) > 1 else sym[0] + n))
+
+    def suffix_items(self, st, lref, pos):
+        """items of the list from absolute position pos on (splitting a segment there if needed)"""
+        k = self.split_at(st, lref, pos)
+        return st.lists[lref.lid][k:]
+
+    def items_equal(self, st, a, b):
+        """z3 formula: two item sequences denote the same sequence of elements (views of the same base compared by
+        their bounds, materialised elements by identity); a conservative `False` when the shapes differ"""
+        ca, cb = _merge_views(st, a), _merge_views(st, b)
+        if len(ca) != len(cb):
+            return z3.BoolVal(False)
+        parts = []
+        for x, y in zip(ca, cb):
+            if x[0] != y[0]:
+                return z3.BoolVal(False)
+            if x[0] == 'seg':
+                if x[1] != y[1]:
+                    return z3.BoolVal(False)
+                parts += [x[2] == y[2], x[3] == y[3]]
+            elif x[1] != y[1]:
+                return z3.BoolVal(False)
+        return z3.And(*parts) if parts else z3.BoolVal(True)
 
     def zlen(self, st, lref):
         n = self.list_len(st, lref)
@@ -504,6 +530,22 @@ class HeapExec(DynExec):
                         self.site('insert', s1, elem=args[1])
                     out.append((s1, None))
             return out
+        if name == 'pop' and not args and items and items[-1][0] == 'iseg':
+            sg = self.segs(st)[items[-1][1]]
+            out = []
+            for s, nonempty in self.decide(st, sg['len'] > 0):
+                if not nonempty:
+                    self.raise_on(s, 'IndexError', 'pop from empty list')
+                    continue
+                e = fresh('popped', z3.IntSort())
+                s.assume(z3.And(e >= 0, e < sg['ub']))
+                sid = next(_ids)
+                # the rest is still sorted, and all of it lies below the popped (largest) entry
+                self.segs(s)[sid] = {'len': z3.simplify(sg['len'] - 1), 'ub': e, 'uni': {}, 'txt': None}
+                s.lists[l.lid] = s.lists[l.lid][:-1] + (('iseg', sid),)
+                bump(s, l.lid)
+                out.append((s, SInt(e)))
+            return out
         if name == 'pop':
             n = self.zlen(st, l)
             idx = args[0] if args else -1
@@ -703,6 +745,17 @@ class HeapExec(DynExec):
                 out.extend((s5, oc, val) for s5 in ok)
         return out
 
+    def allany_ext(self, is_all, gen, st):
+        """all(...) / any(...) over a generator expression: an unknown boolean (over-approximation; the element
+        expressions of the generator are assumed pure - they are tests on tokens)"""
+        if isinstance(gen, Opaque) and gen.name == 'genexp':
+            return [(st, SBool(fresh('all' if is_all else 'any', z3.BoolSort())))]
+        if isinstance(gen, tuple):
+            parts = [self.truth(x, st) for x in gen]
+            r = self.conj(parts) if is_all else self.disj(parts)
+            return [(st, self.wrapb(r))]
+        return NotImplemented
+
     def call_ext(self, f, args, kw, st):
         import re as _re
         if f is _re.search:
@@ -802,8 +855,65 @@ class HeapExec(DynExec):
             pass
         return loops.run_cut_loop(self, stmt, st, key, dict(lc or {}), guard, bind, advance, self.fn)
 
+    def make_iter_ext(self, st, seq, kind):
+        if isinstance(seq, Rec) and seq.kind == 'Token':
+            seq = self.getattr(seq, 'tokens', st)
+        if isinstance(seq, LRef):
+            n = self.list_len(st, seq)
+
+            def at(ex_, s, k):
+                return ex_.elem_at(s, seq, ex_.z_int(k))
+            return self.new_obj(st, kind, {'SEQ': seq, 'K': 0, 'N': n if isinstance(n, SInt) else n, 'AT': at})
+        return NotImplemented
+
+    # ------------------------------------------------------------------ integer stacks (e.g. `opens`)
+    # an item ('iseg', sid) is an opaque run of ints that is strictly increasing, with all entries in [0, ub)
+    def is_int_list(self, st, lref):
+        items = st.lists[lref.lid]
+        return bool(items) and all((it[0] == 'iseg') or (it[0] == 'el' and self.is_intlike(it[1])) for it in items)
+
+    def havoc_int_list(self, st, name):
+        sid = next(_ids)
+        ln = fresh(name + '_len', z3.IntSort())
+        ub = fresh(name + '_ub', z3.IntSort())
+        st.assume(z3.And(ln >= 0, ub >= 0, z3.Implies(ln > 0, ub >= ln)))
+        self.segs(st)[sid] = {'len': ln, 'ub': ub, 'uni': {}, 'txt': None}
+        return self.new_list(st, [('iseg', sid)])
+
+    def int_list_ub(self, st, lref):
+        """exclusive upper bound of the entries (0 for the empty list), assuming the list is sorted"""
+        items = st.lists[lref.lid]
+        if not items:
+            return z3.IntVal(0)
+        last = items[-1]
+        if last[0] == 'el':
+            return z3.simplify(self.z_int(last[1]) + 1)
+        return z3.If(self.segs(st)[last[1]]['len'] > 0, self.segs(st)[last[1]]['ub'], z3.IntVal(0)) \
+            if len(items) == 1 else self.segs(st)[last[1]]['ub']
+
+    def int_list_sorted(self, st, lref):
+        items = st.lists[lref.lid]
+        parts = []
+        prev_ub = z3.IntVal(0)
+        for it in items:
+            if it[0] == 'iseg':
+                sg = self.segs(st)[it[1]]
+                # (an iseg is sorted with entries in [0, ub) by construction; it may only come first)
+                if it is not items[0]:
+                    return z3.BoolVal(False)
+                prev_ub = z3.If(sg['len'] > 0, sg['ub'], z3.IntVal(0))
+            else:
+                x = self.z_int(it[1])
+                parts.append(x >= prev_ub)
+                prev_ub = x + 1
+        return z3.And(*parts) if parts else z3.BoolVal(True)
+
     def havoc_list_var(self, st, name):
-        """a local variable that holds a list and is re-bound / extended in a loop: an unknown list of tokens"""
+        """a local variable that holds a list and is re-bound / extended in a loop: an unknown list of tokens (or, for
+        a list of ints such as the stack of open positions, an unknown sorted list of non-negative ints)"""
+        cur = st.env.get(name)
+        if isinstance(cur, LRef) and (name in (getattr(self.contract, 'int_lists', ()) or ()) or self.is_int_list(st, cur)):
+            return self.havoc_int_list(st, name)
         sid = self.new_seg(st, name='havoc_' + name)
         return self.new_list(st, [('seg', sid)])
 
@@ -813,6 +923,27 @@ class HeapExec(DynExec):
             node = ast.parse(inv.strip(), mode='eval').body
         except SyntaxError:
             return False
+        if isinstance(node, ast.Call) and isinstance(node.func, ast.Name) and node.func.id == 'SUFFIX' \
+                and len(node.args) == 4:
+            tmp = st.fork()
+            old, self._in_spec = getattr(self, '_in_spec', False), True
+            try:
+                c, p_, s_, k_ = [self.eval1(a, tmp) for a in node.args]
+            finally:
+                self._in_spec = old
+            if isinstance(c, Rec):
+                c = self.getattr(c, 'tokens', st)
+            zp, zk = self.z_int(p_), self.z_int(k_)
+            st.assume(zp >= 0)
+            # the list is: an unknown prefix of p elements, then exactly the snapshot from k on
+            tail = self.suffix_items(st, s_, zk)
+            owner = [Rec(oid, 'Token') for oid, f in st.objs.items()
+                     if isinstance(f.get('tokens'), LRef) and f['tokens'].lid == c.lid]
+            uni = {'parent': owner[0]} if owner else {}
+            g = self.new_seg(st, length=zp, uni=uni, name='prefix')
+            st.lists[c.lid] = (('seg', g),) + tuple(tail)
+            bump(st, c.lid)
+            return True
         if not (isinstance(node, ast.Call) and isinstance(node.func, ast.Name) and node.func.id == 'ALL'
                 and len(node.args) == 3):
             return False
@@ -840,6 +971,13 @@ class HeapExec(DynExec):
 
     def havoc_list_ext(self, st, lid):
         """a list that is structurally modified inside a loop: at the loop head it is an unknown list of tokens"""
+        names = [n for n, v in st.env.items() if isinstance(v, LRef) and v.lid == lid]
+        if any(n in (getattr(self.contract, 'int_lists', ()) or ()) for n in names) or \
+                (st.lists.get(lid) and self.is_int_list(st, LRef(lid))):
+            tmp = self.havoc_int_list(st, names[0] if names else 'ints')
+            st.lists[lid] = st.lists.pop(tmp.lid)
+            bump(st, lid)
+            return
         sid = self.new_seg(st, name='havoc')
         st.lists[lid] = (('seg', sid),)
         bump(st, lid)
@@ -994,6 +1132,18 @@ class HeapExec(DynExec):
                                                  z3.Not(MATCHF(zp, zs, j))))
             reg['N'].append((pid, snap, lo, hi))
             return [(st, SBool(NOMATCHF(zp, zs, lo, hi)))]
+        if name == 'UB':
+            return [(st, SInt(self.int_list_ub(st, args[0])))]
+        if name == 'SORTED':
+            return [(st, SBool(self.int_list_sorted(st, args[0])))]
+        if name == 'SUFFIX':
+            # SUFFIX(C, p, S, k): the list C from position p on is the list S from position k on (same elements)
+            c, p_, s_, k_ = args
+            if isinstance(c, Rec):
+                c = self.getattr(c, 'tokens', st)
+            a = self.suffix_items(st, c, self.z_int(p_))
+            b = self.suffix_items(st, s_, self.z_int(k_))
+            return [(st, SBool(self.items_equal(st, a, b)))]
         if name == 'SAME_ITEMS':
             a, b = args
             return [(st, st.lists[a.lid] == st.lists[b.lid])]
@@ -1077,9 +1227,36 @@ def bump(st, lid):
     st.ghost['__ver__%d' % lid] = st.ghost.get('__ver__%d' % lid, 0) + 1
 
 
+def _merge_views(st, items):
+    """item sequence with adjacent views of the same base merged; entries ('seg', base, lo, hi) | ('el', oid)"""
+    out = []
+    for it in items:
+        if it[0] == 'seg':
+            sg = st.segs_[it[1]]
+            x = ('seg', sg['base'], sg['lo'], sg['hi'])
+        elif it[0] == 'el' and isinstance(it[1], Rec) and '__pos__' in st.objs.get(it[1].oid, {}):
+            f = st.objs[it[1].oid]
+            x = ('seg', f['__base__'], f['__pos__'], z3.simplify(f['__pos__'] + 1))
+        elif it[0] == 'el':
+            x = ('el', getattr(it[1], 'oid', id(it[1])))
+        else:
+            x = ('other', id(it))
+        if out and x[0] == 'seg' and out[-1][0] == 'seg' and out[-1][1] == x[1] \
+                and z3.is_true(z3.simplify(out[-1][3] == x[2])):
+            out[-1] = ('seg', x[1], out[-1][2], x[3])
+        else:
+            out.append(x)
+    # drop views that are syntactically empty
+    return [x for x in out if not (x[0] == 'seg' and z3.is_true(z3.simplify(x[2] == x[3])))]
+
+
 def _canon_items(st, items):
     out = []
     for it in items:
+        if it[0] == 'iseg':
+            sg = st.segs_[it[1]]
+            out.append(('iseg', str(sg['len']), str(sg['ub'])))
+            continue
         if it[0] == 'seg':
             sg = st.segs_[it[1]]
             out.append(('seg', sg['base'], str(sg['lo']), str(sg['hi'])))
@@ -1127,6 +1304,9 @@ def bind_elem_or_none(list_expr, idx_name, tok_name):
                     out.append(s2)
         return out
     return bind
+
+
+INT_LIST_NAMES = {'opens'}
 
 
 class _NeedCase(Exception):
